@@ -7,7 +7,7 @@ from lib import *
 UNITS = ['Validate']
 MODEL = ['Model/ValidateEval.vo']
 PRE = ('From Coq Require Import List ZArith Bool.\n'
-       'From PV Require Import Base.Exn Model.ValidateSem Model.ValidateEval.\nImport ListNotations.')
+       'From PV Require Import Base.Exn Model.ValidateSem Model.ValidateSources Spec.ValidateSourcesSpec Model.ValidateEval.\nImport ListNotations.')
 PARAM_EXC = [0, 13, 1]
 NONE = [0, 0, 0]
 MODES = ['ARGS', 'KWARGS_WITH_NONE', 'KWARGS_WITHOUT_NONE']
@@ -29,7 +29,22 @@ def cval(v):
         return f'(VStr (SWord {coq_Z(a)}))'
     if t == 5:
         return 'VSelf'
+    if t == 6:
+        return f'(VList {coq_list([csval(x) for x in list_items(a, b)])})'
     raise ValueError(v)
+
+
+def list_items(code, n):
+    """a list of strings [6, code, n] -> the item codes: numerals (z + 50) * 2 + padded, words 200 + k, base 256"""
+    out = []
+    for _ in range(n):
+        out.append(code % 256)
+        code //= 256
+    return out
+
+
+def csval(it):
+    return f'(SWord {coq_Z(it - 200)})' if it >= 200 else f'(SNum {coq_Z(it // 2 - 50)} {coq_bool(it % 2)})'
 
 
 def copt(v):
@@ -54,7 +69,7 @@ def flask_source(p, rq):
         return None
     key = str(p['n'])
     if p['kind'] == 'fjson':
-        d = rq.get('json_body', {}) if rq['json'] else {}
+        d = rq.get('json_body', {}) if rq['json'] and not rq.get('json_null') else {}
     elif p['kind'] == 'fform':
         d = {} if rq['json'] else rq.get('form', {})
     elif p['kind'] == 'fget':
@@ -64,35 +79,85 @@ def flask_source(p, rq):
     return d.get(key)
 
 
-def cext(p, rq):
+SRC_KIND = {'fjson': 'KJson', 'fform': 'KForm', 'fget': 'KQuery', 'fheader': 'KHeader', 'env': 'KEnv'}
+
+
+def env_code(p):
+    """code of the environment variable an EnvironmentVariableParameter reads (w_validate.env_name): the parameter name itself,
+    PV_VALIDATE_<n> (200 + n) or PV_VALIDATE_<n>_<i> (300 + 20 * i + n)"""
+    v = p.get('env_var')
+    if not v:
+        return p['n']
+    parts = [int(x) for x in v.split('_')[2:]]
+    return 200 + parts[0] if len(parts) == 1 else 300 + 20 * parts[1] + parts[0]
+
+
+def cext(p, rq=None):
     k = p['kind']
     if k in ('plain', 'fpath'):
         return 'XNone'
-    if k in FLASK_KINDS:
-        v = flask_source(p, rq)
-        return 'XAbsent' if v is None else f'(XValue {cval(v)})'
+    if k in SRC_KIND:
+        return f'(XSrc {SRC_KIND[k]} {coq_nat(env_code(p) if k == "env" else p["n"])} {coq_bool(p["conv"] == 4)})'
     st = p['ext']
     if st['state'] == 'absent':
         return 'XAbsent'
     if st['state'] == 'broken':
         return f'(XBroken {cpath(st["exc"])})'
-    return f'(XEnv {cval(st["val"])})' if k == 'env' else f'(XValue {cval(st["val"])})'
+    return f'(XValue {cval(st["val"])})'
+
+
+def environ_of(params):
+    """the environment variables as w_validate.perform sets them up (in declaration order; the last description of a variable wins)"""
+    env = {}
+    for p in params:
+        if p['kind'] == 'env':
+            env.pop(env_code(p), None)
+            if p['ext']['state'] == 'value':
+                env[env_code(p)] = p['ext']['val']
+    return env
+
+
+def cworld(rq, environ):
+    """Model/ValidateEval.mkworld: the request (None = no request context) and the environment"""
+    def pairs(d, f):
+        return coq_list([f'({coq_nat(int(k))}, {f(k, v)})' for k, v in d.items()])
+    if rq is None:
+        crq = 'None'
+    else:
+        if rq['json']:
+            cj = '(Some None)' if rq.get('json_null') else f'(Some (Some {pairs(rq.get("json_body", {}), lambda k, v: cval(v))}))'
+            cf = '[]'
+        else:
+            cj = 'None'
+            cf = pairs(rq.get('form', {}), lambda k, v: coq_list([cval(v)]))
+        more = rq.get('args_more', {})
+        ca = pairs(rq.get('args', {}), lambda k, v: coq_list([cval(x) for x in [v] + more.get(k, [])]))
+        sp = rq.get('header_spelling', {})
+        ch = coq_list([f'({coq_nat(int(k) + 100 * sp.get(k, 0))}, {cval(v)})' for k, v in rq.get('headers', {}).items()])
+        crq = f'(Some ({cj}, {cf}, {ca}, {ch}))'
+    ce = coq_list([f'({coq_nat(k)}, {cval(v)})' for k, v in environ.items()])
+    return f'(mkworld {crq} {ce})'
 
 
 def coq_case(c):
+    if 'probe' in c:
+        return coq_probe(c)
     rq = c.get('request')
     ps = coq_list([f'mkp {coq_nat(p["n"])} {p["conv"]} {coq_list([cdesc(d) for d in p["chain"]])} {coq_bool(p["required"])} '
                    f'{copt(p["default"])} {cpath(PARAM_EXC)} {cext(p, rq)} {coq_bool(p["kind"] == "fjson")}' for p in c['params']])
     sps = coq_list([f'mksp {coq_nat(sp["n"])} {coq_bool(sp["kwonly"])} {copt(sp["default"])}' for sp in c['sig']['params']])
-    if rq is None:
-        crq = 'None'
-    else:
-        keys = coq_list([coq_nat(int(k)) for k in rq.get('json_body', {})]) if rq['json'] else '[]'
-        crq = f'(Some ({coq_bool(rq["json"])}, {keys}))'
     args = ([[5, 0, 0]] if c['sig']['method'] else []) + c['args']
     return (f'eval_case {ps} {sps} {coq_bool(c["sig"]["varkw"])} {coq_bool(c["sig"].get("varpos", False))} {c["mode"]} {coq_bool(c["strict"])} {coq_bool(c["ignore"])} '
-            f'{coq_bool(c["async"])} {crq} {coq_list([cval(v) for v in args])} '
+            f'{coq_bool(c["async"])} {cworld(rq, environ_of(c["params"]))} {coq_list([cval(v) for v in args])} '
             f'{coq_list([f"({coq_nat(n)}, {cval(v)})" for n, v in c["kwargs"]])}')
+
+
+def coq_probe(c):
+    pr = c['probe']
+    w = cworld(c.get('request'), {int(k): v for k, v in c.get('environ', {}).items()})
+    if pr['kind'] == 'fdeser':
+        return f'eval_probe_deser {coq_nat(pr["n"])} {coq_bool(pr["catch"])} {w}'
+    return f'eval_probe {SRC_KIND[pr["kind"]]} {coq_nat(pr["key"])} {coq_bool(pr["as_list"])} {w}'
 
 
 # --------------------------------------------------------------------------- parsing the Coq output
@@ -121,6 +186,8 @@ class Rd:
 
 
 def parse_model(xs):
+    if xs and xs[0] == -7:
+        raise ValueError('has_value() of a source raises in the model: class path %r' % (xs[2:],))
     r = Rd(xs)
     out = {'journal': r.journal()}
     k = r.get()
@@ -170,8 +237,8 @@ def by_name(journal):
     return g
 
 
-def judge(c, i, m):
-    """-> (correspondence_ok, property_ok, what, kind)"""
+def judge(c, i, m, skip_journal=()):
+    """-> (correspondence_ok, property_ok, what, kind); skip_journal: names whose validator inputs are not compared"""
     if i is None or 'error' in i:
         return False, True, f'implementation worker failed: {i}', ''
     if m is None:
@@ -213,6 +280,8 @@ def judge(c, i, m):
         # validator inputs: in chain order, each fed with its predecessor's output
         gi, gs = by_name(i['journal']), by_name(m['spec_journal'])
         for n in (set(gi) | set(gs) if m['domain'] == 2 else ()):
+            if n in skip_journal:
+                continue
             a, b = gi.get(n, []), gs.get(n, [])
             if a != b and not (fin[0] == 'raise' and a == []):
                 what.append(f'validators of parameter {n} were fed with {a} (index, value), demanded {b}')
@@ -245,6 +314,93 @@ def judge(c, i, m):
     return corr, not what, '; '.join(what), kind
 
 
+# --------------------------------------------------------------------------- several Parameters declared for ONE name
+# The property text speaks of "the Parameter" of a value.  When several Parameter objects are declared under the same name (two
+# sources for one argument: a current and a legacy environment variable, the JSON body and the query string, a plain Parameter
+# next to an external one) it does not say which of them is meant - but whichever it is, what the text states about that
+# Parameter has to hold: a value the caller passes goes through the chain of a Parameter of that name and no external source
+# (and no default) of that name replaces it (C13: "supplies a value only when the caller did not pass one"; C12: the gate).
+# So such a call is judged against EVERY resolution (one Parameter kept per name; Spec/ValidateSpec.v on the resolved
+# declaration) and is a violation only if no resolution admits what the implementation did.  The validator inputs of the
+# duplicated names are not compared (the text does not decide which of the chains run for a value nobody passed).
+RESOLUTION_CAP = 9
+
+
+def dup_names(c):
+    seen, d = set(), []
+    for p in c.get('params', []):
+        if p['n'] in seen and p['n'] not in d:
+            d.append(p['n'])
+        seen.add(p['n'])
+    return d
+
+
+def resolutions(c):
+    """the declarations that keep exactly one of the Parameters of every name, the last-declared ones first; [] when the
+    case has no duplicate name, is outside the text (*args) or has more resolutions than RESOLUTION_CAP (then it is not judged)"""
+    if 'calls' in c or c.get('impl_only') or c['sig'].get('varpos'):
+        return []
+    groups = {}
+    for idx, p in enumerate(c['params']):
+        groups.setdefault(p['n'], []).append(idx)
+    dn = [n for n in groups if len(groups[n]) > 1]
+    if not dn:
+        return []
+    total = 1
+    for n in dn:
+        total *= len(groups[n])
+    if total > RESOLUTION_CAP:
+        return []
+    out = []
+    for choice in itertools.product(*[list(reversed(groups[n])) for n in dn]):
+        r = dict(c)
+        r['params'] = [p for idx, p in enumerate(c['params']) if len(groups[p['n']]) == 1 or idx in choice]
+        r['resolution'] = list(choice)
+        out.append(r)
+    return out
+
+
+def caller_assignment(c):
+    """name -> value as the caller passes it (nothing under ignore_input)"""
+    if c['ignore']:
+        return {}
+    pos = [sp['n'] for sp in c['sig']['params'] if not sp['kwonly']]
+    args = ([[5, 0, 0]] if c['sig']['method'] else []) + c['args']
+    d = dict(zip(pos, args))
+    for n, v in c['kwargs']:
+        d.setdefault(n, v)
+    return d
+
+
+def judge_duplicates(c, i, res):
+    """res: [(resolved case, parsed model / specification of the resolved case)] -> (judged, property_ok, what, kind)"""
+    if not res or any(m is None or m['domain'] not in (1, 2) for _, m in res) or i is None or 'error' in i:
+        return False, True, '', ''
+    dn = dup_names(c)
+    verdicts = [judge(cr, i, mr, skip_journal=dn) for cr, mr in res]
+    if any(v[1] for v in verdicts):
+        return True, True, '', ''
+    fin = impl_final(i)
+    asg = caller_assignment(c)
+    if fin[0] == 'body' and i['calls'] == 1:
+        got = dict((n, v) for n, v in fin[1])
+        for n in dn:
+            allowed = []
+            for cr, mr in res:
+                if mr['demand'][0] == 'body':
+                    v = dict((k, x) for k, x in mr['demand'][1]).get(n)
+                    if v not in allowed:
+                        allowed.append(v)
+            if n in asg and allowed and got.get(n) not in allowed:
+                k = len([p for p in c['params'] if p['n'] == n])
+                return True, False, (f'{k} Parameters are declared for the name {n} and the caller passes {asg[n]} for it: the body saw {got.get(n)}, '
+                                     f'which is not what any of these Parameters makes of the caller\'s value (their chains give {allowed}): '
+                                     f'another source (external value / default) replaced the value the caller passed'), 'caller-value-replaced'
+    passed = ''.join(f' (the caller passes {asg[n]} for {n})' for n in dn if n in asg)
+    return True, False, (f'several Parameters are declared for the name(s) {dn}{passed}; whichever of them is taken as the Parameter of its name, '
+                         f'the statement is violated - e.g. with the last-declared ones: ' + verdicts[0][2]), verdicts[0][3] or 'duplicate-names'
+
+
 # --------------------------------------------------------------------------- known findings
 # C12-K4 / C12-K5 (*args branch of the positional loop) are status "fixed" (/repo 137d0c4 / 1908fef), like
 # C12-K1 / C13-K1 (arrival-order fallback of _as_args), status "fixed" (/repo d10af45) in /verif/known_findings.json: their
@@ -261,7 +417,7 @@ def py_eq(a, b):
 
 def finding_matcher(f, case):
     """narrow syntactic predicates on the (single) case"""
-    if 'calls' in case:
+    if 'calls' in case or 'probe' in case:
         return False
     mid = f.get('matcher', {}).get('id')
     signames = [sp['n'] for sp in case['sig']['params']]
@@ -582,6 +738,7 @@ def gen_matrix(rng, maxchain, n, cap_styles, modes=(0, 1, 2), flask=False):
         kinds = ('plain', 'fjson', 'fjson', 'fform', 'fget', 'fheader', 'hext', 'env')
     benign = rng.random() < 0.6
     params = gen_decl(rng, sig, strict, maxchain, kinds, benign=benign)
+    finish_request(rng, rq, params, strict)
     asg = gen_assignment(rng, sig, params, rq)
     if benign:                                   # mostly acceptable values: small ints / their numerals, rarely None
         for sp in named(sig):
@@ -631,9 +788,151 @@ def gen_request(rng, sig):
             rq['headers'][k] = rng.choice([[3, rng.choice(INT_POOL), 0], [4, rng.choice([0, 1, 2, 5, 6]), 0]])
     if is_json and rng.random() < 0.15:
         rq['json_body']['9'] = gen_val(rng)          # key without Parameter: the strict-JSON clause
+    rq['args_more'] = {k: [gen_val(rng, strings_only=True) for _ in range(rng.choice([1, 1, 2]))]
+                       for k in rq['args'] if rng.random() < 0.3}                   # ?k=a&k=b: getlist
+    rq['header_spelling'] = {k: rng.choice([1, 2]) for k in rq['headers'] if rng.random() < 0.4}   # the same header, spelled differently
     return rq
 
 
+def finish_request(rng, rq, params, strict):
+    """value_type=list on some query Parameters; rarely the JSON document null as body.
+    NOT generated: null together with strict=True - the strict-JSON clause at the end of _wrapper_content iterates request.json
+    (suspected defect, outside the property text: TypeError 'NoneType' object is not iterable when every Parameter is a
+    FlaskJsonParameter, or none is declared, and the body is null)."""
+    if rq is None:
+        return
+    for p in params:
+        if p['kind'] == 'fget' and rng.random() < 0.35:
+            p['conv'] = 4
+    if rq['json'] and not strict and rng.random() < 0.06:
+        rq['json_null'], rq['json_body'] = True, {}
+
+
+
+
+# --------------------------------------------------------------------------- several Parameters for one name
+EXT_KINDS = ('hext', 'env') + FLASK_KINDS
+
+
+def gen_duplicates(rng, maxchain, cap_styles, modes=(0, 1, 2), flask=False):
+    """One or two names of the signature are declared by SEVERAL Parameter objects (plain and external ones, their sources with
+    and without a value, each environment Parameter reading its own variable), at random positions of the declaration; one named
+    assignment that mostly passes the duplicated name(s); every call style x every return_as mode.  Judged by judge_duplicates."""
+    sig = gen_sig(rng, rng.choice([1, 2, 2, 3]), rng.random() < 0.2, kwonly_p=0.2, varkw_p=0.05)
+    strict = rng.random() < 0.5
+    rq = gen_request(rng, sig) if flask else None
+    kinds = ('plain', 'fjson', 'fjson', 'fform', 'fget', 'fget', 'fheader', 'hext', 'env') if flask else ('plain', 'plain', 'hext', 'hext', 'env', 'env')
+    benign = rng.random() < 0.75
+    params = gen_decl(rng, sig, True, maxchain, kinds, benign=benign)
+    targets = rng.sample(named(sig), 2 if len(named(sig)) >= 2 and rng.random() < 0.25 else 1)
+    for sp in targets:
+        for _ in range(rng.choice([1, 1, 1, 2]) if len(targets) == 1 else 1):
+            q = gen_param(rng, sp['n'], maxchain, kinds, benign=benign)
+            if rng.random() < 0.6:                   # an optional source
+                q['required'] = False
+            if q['kind'] in ('hext', 'env') and rng.random() < 0.6:        # ... that has a value
+                q['ext'] = {'state': 'value', 'val': gen_val(rng, strings_only=q['kind'] == 'env', no_none=True)}
+            params.insert(rng.randint(0, len(params)), q)
+        if rng.random() < 0.5:                       # one plain Parameter among the copies (the argument itself next to its sources)
+            own = [p for p in params if p['n'] == sp['n']]
+            if all(p['kind'] != 'plain' for p in own):
+                rng.choice(own).update(kind='plain', ext=None, conv=rng.choice([0, 0, 1]))
+    for idx, p in enumerate(params):
+        if p['kind'] == 'env':
+            p['env_var'] = 'PV_VALIDATE_%d_%d' % (p['n'], idx)            # current / legacy variable: one variable per Parameter
+        elif 'env_var' in p:
+            del p['env_var']
+    finish_request(rng, rq, params, strict)
+    asg = gen_assignment(rng, sig, params, rq)
+    for sp in targets:
+        if rng.random() < 0.8:
+            asg[sp['n']] = rng.choice([[1, rng.choice([0, 2, 3, 8]), 0], [3, rng.choice([0, 2, 8]), 0], gen_val(rng)])
+        else:
+            asg.pop(sp['n'], None)
+    if benign:
+        for n in asg:
+            if rng.random() < 0.7:
+                asg[n] = rng.choice([[1, rng.choice([0, 2, 3, 8]), 0], [3, rng.choice([0, 2, 8]), 0]])
+    ignore = rng.random() < 0.06
+    out = []
+    gid = rng.getrandbits(48)
+    for (j, perm) in styles(sig, asg, rng, cap_styles):
+        args, kwargs = make_call(sig, asg, j, perm)
+        for mode in modes:
+            c = base_case(sig, params, mode, strict, ignore, rng.random() < 0.25, args, kwargs, request=rq, tag='duplicate-names')
+            c['group'] = gid
+            out.append(c)
+    return out
+
+
+# --------------------------------------------------------------------------- has_value() / load_value() of one source object
+def gen_probe(rng):
+    """One source object of the library (environment variable, Flask JSON / form / query / header Parameter, deserializer) in a
+    generated world: request with JSON body (object / null) or form, query string with repeated keys, headers in other
+    spellings, environment with padded texts; rarely outside a request context.  has_value() and load_value() are called
+    directly and compared with the model (Gen/ValidateSources.v interpreted by Model/ValidateSources.v) and with the
+    specification of the source (Spec/ValidateSourcesSpec.v: key present / value held)."""
+    kind = rng.choice(['fjson', 'fform', 'fget', 'fget', 'fheader', 'fheader', 'env', 'env', 'fdeser'])
+    n = rng.choice([1, 1, 2, 3, 10, 11, 13, 17])
+    sig = {'params': [{'n': m, 'kwonly': False, 'default': None} for m in sorted({n, 1, rng.choice([2, 3, 10])})], 'varkw': False, 'method': False}
+    rq = gen_request(rng, sig) if kind != 'env' and rng.random() < 0.95 else None
+    if rq and rq['json'] and rng.random() < 0.1:
+        rq['json_null'], rq['json_body'] = True, {}
+    c = {'probe': {'kind': kind, 'n': n, 'key': n, 'as_list': kind == 'fget' and rng.random() < 0.4, 'catch': rng.random() < 0.6},
+         'request': rq, 'environ': {}, 'environ_names': {}, 'tag': 'source-probe'}
+    if kind == 'env':
+        own = rng.random() < 0.5
+        var, code = (None, n) if own else ('PV_VALIDATE_%d' % n, 200 + n)
+        c['probe'].update(env_var=var, key=code)
+        names = {n: 'p%d' % n if n < 10 else {10: 'args', 11: 'kwargs', 13: 'result', 17: 'value'}[n], 200 + n: 'PV_VALIDATE_%d' % n}
+        for k in names:                                   # the variable of the Parameter and the other candidate
+            if rng.random() < 0.55:
+                v = gen_val(rng, strings_only=True)
+                if v[0] == 3 and rng.random() < 0.5:
+                    v[2] = 1
+                c['environ'][str(k)] = v
+        c['environ_names'] = {str(k): v for k, v in names.items()}
+    return c
+
+
+def parse_probe(xs):
+    r = Rd(xs)
+
+    def has():
+        return ['ok', r.get()] if r.get() == 0 else ['raise', r.path()]
+
+    def load():
+        if r.get() == 0:
+            return ['ok', r.val()]
+        pn = r.get()
+        return ['raise', r.path(), pn]
+    out = {'has': has(), 'load': load()}
+    assert r.get() == -1
+    if r.i < len(xs):
+        out['in_context'], out['present'] = r.get(), r.get()
+        out['value'] = r.val() if r.get() == 1 else None
+    assert r.i == len(xs)
+    return out
+
+
+def judge_probe(c, i, m):
+    """-> (correspondence_ok, property_ok, what)"""
+    if i is None or 'error' in i:
+        return False, True, f'implementation worker failed: {i}'
+    if m is None:
+        return False, True, 'model evaluation failed'
+    ih, il = i['has'][:2], i['load'][:3]
+    corr = ih == m['has'] and il == m['load']
+    what = []
+    if 'present' in m and m['in_context']:
+        kind = {'fjson': 'the JSON body', 'fform': 'the form', 'fget': 'the query string', 'fheader': 'the headers', 'env': 'the environment'}[c['probe']['kind']]
+        if ih != ['ok', m['present']]:
+            what.append(f'has_value() gives {i["has"]} although the key is {"present in" if m["present"] else "absent from"} {kind}')
+        elif m['present'] and m['value'] is not None and il != ['ok', m['value']]:
+            what.append(f'load_value() gives {i["load"]}, {kind} holds {m["value"]} for the key'
+                        + (' (all values of the key as a list: value_type is list)' if c['probe'].get('as_list') else '')
+                        + (' (the text of the variable without surrounding white space)' if c['probe']['kind'] == 'env' else ''))
+    return corr, not what, '; '.join(what)
 
 
 # --------------------------------------------------------------------------- functions with *args
@@ -779,14 +1078,16 @@ def features(c, m):
 
 
 def size(c):
+    if 'probe' in c:
+        return 2 + len(c.get('environ', {})) + (sum(len(v) for k, v in c['request'].items() if isinstance(v, dict)) if c.get('request') else 0)
     if 'calls' in c:
         return 100 + 10 * len(c['calls']) + len(c['params']) + sum(len(p['chain']) for p in c['params'])
     return (len(c['sig']['params']) + len(c['params']) + sum(len(p['chain']) for p in c['params']) + len(c['args']) + len(c['kwargs'])
             + (3 if c.get('request') else 0))
 
 
-def run_checks(pid, tier, seed, replay, gen_cases, props, rule, group_check=False):
-    ck = Check(pid, tier, seed, UNITS, MODEL, props)
+def run_checks(pid, tier, seed, replay, gen_cases, props, rule, group_check=False, tr_units=None):
+    ck = Check(pid, tier, seed, tr_units or UNITS, MODEL, props)
     ck.prepare()
     for f in PENDING_FINDINGS:       # entries handed to the coordinator; active until known_findings.json carries them
         if f['property'] == pid and not any(g['id'] == f['id'] for g in ck.findings):
@@ -818,6 +1119,33 @@ def run_checks(pid, tier, seed, replay, gen_cases, props, rule, group_check=Fals
         else:
             keep.append((u, ui))
     units, unit_impl = [k[0] for k in keep], [k[1] for k in keep]
+    # has_value() / load_value() of single source objects: against the model of the sources and their specification
+    probes = [(u, ui) for u, ui in zip(units, unit_impl) if 'probe' in u]
+    keep = [(u, ui) for u, ui in zip(units, unit_impl) if 'probe' not in u]
+    units, unit_impl = [k[0] for k in keep], [k[1] for k in keep]
+    probe_hist, probe_bad = {}, []
+    if probes:
+        raw = ck.coq_eval(PRE, [coq_case(u) for u, _ in probes], chunk=250) if ck.model_ok else [None] * len(probes)
+        for (u, ui), r in zip(probes, raw):
+            try:
+                pm = parse_probe(r) if r is not None else None
+            except Exception:
+                pm = None
+            ck.note_case(json.dumps(u, sort_keys=True), nontrivial=True)
+            corr, prop, what = judge_probe(u, ui, pm)
+            k = u['probe']['kind'] + (' list' if u['probe'].get('as_list') else '') + ': ' + \
+                ('no request context' if u['request'] is None and u['probe']['kind'] != 'env' else
+                 'present' if pm and pm.get('present') else 'absent' if pm and 'present' in pm else
+                 'json' if u['request'] and u['request']['json'] else 'not json')
+            probe_hist[k] = probe_hist.get(k, 0) + 1
+            if not prop:
+                ck.violation(what, u, stream='validate-sources', extra={'impl': ui, 'model': pm, 'class': 'source-value'}, matcher=finding_matcher)
+            elif not corr:
+                probe_bad.append({'case': u, 'impl': ui, 'model': pm, 'what': what})
+            else:
+                ck.traces_validated += 1
+        ck.oblige('correspondence:validate-sources', 'correspondence', not probe_bad,
+                  json.dumps(probe_bad[0])[:1500] if probe_bad else f'{len(probes)} source objects agree with the model')
     # sequences over shared Parameter objects: every call becomes a single case for model / specification; a failing
     # call is reported with the sequence up to and including it
     cases, impl, origin = [], [], []
@@ -832,26 +1160,46 @@ def run_checks(pid, tier, seed, replay, gen_cases, props, rule, group_check=Fals
                 origin.append(shared_prefix(u, k))
         else:
             cases.append(u); impl.append(ui); origin.append(u)
-    raw = ck.coq_eval(PRE, [coq_case(c) for c in cases], chunk=250) if ck.model_ok else [None] * len(cases)
+    # several Parameters declared for one name: the specification is evaluated on every resolution (one Parameter kept per name)
+    resolved = [resolutions(c) for c in cases]
+    extra = [cr for rs in resolved for cr in rs]
+    raw = ck.coq_eval(PRE, [coq_case(c) for c in cases + extra], chunk=250) if ck.model_ok else [None] * len(cases + extra)
     model = []
     for r in raw:
         try:
             model.append(parse_model(r) if r is not None else None)
         except Exception:
             model.append(None)
+    model, model_extra = model[:len(cases)], model[len(cases):]
+    res_of, pos = [], 0
+    for rs in resolved:
+        res_of.append(list(zip(rs, model_extra[pos:pos + len(rs)])))
+        pos += len(rs)
     hist = {'outcome': {}, 'domain': {}, 'tag': {}, 'mode': {}, 'n_named': {}, 'n_declared': {}, 'chain_len': {},
-            'first_rejection_at': {}, 'param_kind': {}, 'flags': {}, 'violation_kind': {}}
+            'first_rejection_at': {}, 'param_kind': {}, 'flags': {}, 'violation_kind': {}, 'duplicate_names': {},
+            'duplicate_sources_with_value': {}}
 
     def bump(h, k):
         hist[h][str(k)] = hist[h].get(str(k), 0) + 1
     disagreements = []
     groups = {}
-    for c, i, m, org in zip(cases, impl, model, origin):
+    n_dup_judged = 0
+    for c, i, m, org, res in zip(cases, impl, model, origin, res_of):
         key = json.dumps([c['sig'], c['params'], c['mode'], c['strict'], c['ignore'], c['async'], c['request'], c['args'], c['kwargs']],
                          sort_keys=True) if org is c else json.dumps(org, sort_keys=True)
         nontrivial = bool(c['params']) and (len(c['args']) + len(c['kwargs']) >= 1 or any(p['ext'] for p in c['params']))
         ck.note_case(key, nontrivial=nontrivial)
         corr, prop, what, kind = judge(c, i, m)
+        dup_judged = False
+        if prop and res:
+            dup_judged, prop, what, kind = judge_duplicates(c, i, res)
+            n_dup_judged += dup_judged
+            if dup_judged:
+                asg = caller_assignment(c)
+                for n in dup_names(c):
+                    own = [p for p in c['params'] if p['n'] == n]
+                    bump('duplicate_names', ('passed ' if n in asg else 'ignored ' if c['ignore'] else 'not passed ') + '+'.join(p['kind'] for p in own))
+                    bump('duplicate_sources_with_value', sum(1 for p in own if has_source(p, c.get('request'))))
         if pid == 'C13' and kind == 'too-many-positionals-base-class':
             prop, what, kind = True, '', ''      # which class reports a surplus positional is a C12 matter (finding C12-K7)
         if pid == 'C12' and kind == 'unknown-name-accepted':
@@ -884,11 +1232,14 @@ def run_checks(pid, tier, seed, replay, gen_cases, props, rule, group_check=Fals
             bump('violation_kind', kind)
             if org is not c:
                 what = f'call {c["step"] + 1} of a sequence over shared Parameter objects (functions decorated with the same Parameter objects, called one after the other) does not end like the same call on its own: ' + what
-            ck.violation(what, org, stream='validate' if org is c else 'validate-shared', extra={'impl': i, 'model': m, 'class': kind, 'single_case': c},
+            ck.violation(what, org, stream='validate-duplicates' if dup_judged else 'validate' if org is c else 'validate-shared',
+                         extra={'impl': i, 'model': m, 'class': kind, 'single_case': c,
+                                **({'resolutions': [{'kept': cr['resolution'], 'demand': mr['demand']} for cr, mr in res]} if dup_judged else {})},
                          matcher=finding_matcher)
         elif not corr:
             disagreements.append({'case': org, 'impl': i, 'model': m, 'what': what, 'single_case': c})
-        if group_check and i and 'error' not in i and m and m['domain'] == 2 and 'group' in c and c.get('tag') == 'matrix':
+        if group_check and i and 'error' not in i and m and (m['domain'] == 2 or dup_judged) and 'group' in c \
+                and c.get('tag') in ('matrix', 'duplicate-names'):
             groups.setdefault((c['group'], c['mode']), []).append((c, i))
     # C13, independent of the specification: within a group (same configuration and named assignment, same mode)
     # every call style must end the same way, and ARGS / KWARGS_WITH_NONE must agree with each other
@@ -916,7 +1267,8 @@ def run_checks(pid, tier, seed, replay, gen_cases, props, rule, group_check=Fals
         ck.oblige('generator:non-degenerate', 'correspondence', len(ck.nontrivial) >= 0.3 * len(cases) and
                   hist['domain'].get('2', 0) >= floor, f'distinct non-trivial {len(ck.nontrivial)} of {len(cases)}, in-domain {hist["domain"].get("2", 0)}')
     ck.coverage.update({'histograms': hist, 'disagreements': len(disagreements), 'cases': len(cases), 'shared_parameter_sequences': n_seq,
-                        'positional_only_impl_only': n_posonly})
+                        'positional_only_impl_only': n_posonly, 'source_probes': probe_hist, 'duplicate_name_cases_judged': n_dup_judged,
+                        'duplicate_name_resolutions_evaluated': len(extra)})
     trip = list(zip(cases, impl, model))
     ck.samples = [{'case': c, 'impl': i, 'model': m} for c, i, m in trip[:2] + trip[-2:]]
     ck.assumptions = [
@@ -927,12 +1279,20 @@ def run_checks(pid, tier, seed, replay, gen_cases, props, rule, group_check=Fals
         'history independence is checked on sequences of calls of 2-3 functions decorated with the SAME Parameter objects: every call must end '
         'like the same call of a freshly decorated function (the model is a pure function of declaration and call)',
         'Flask is installed (IS_FLASK_INSTALLED); the strict-JSON clause at the end of _wrapper_content is compared with the model only',
+        'external sources: the model runs on has_value / load_value as the descriptions regenerated from the code say (Gen/ValidateSources.v), the '
+        'specification on what Spec/ValidateSourcesSpec.v says about the kind of source (key present, value held); JSON bodies are objects or null, '
+        'header names differ from the parameter name at most in case, environment texts are numerals (blank padded) and seven words',
+        'several Parameters declared for one name: the text does not say which of them is "the Parameter" of the name, so such a call is '
+        'a violation only if NO choice of one Parameter per name admits the outcome (a value the caller passes must come out of the chain of '
+        'one of them, never from an external source or a default); validator inputs of the duplicated names are compared with the model only',
     ]
     return ck.finish(
         rule=rule,
         checker_cmd=f'make -C coq {props[:-2]}.vo && coqc -Q coq PV coq/{props} (Print Assumptions under every theorem)',
         trusted_base=['Coq 8.16.1 kernel (coqc; vm_compute for model/spec evaluation)',
                       'translator/t_validate.py (Python ast -> Gen/Validate.v)',
+                      'translator/t_validate_sources.py (Python ast -> Gen/ValidateSources.v), Model/ValidateSources.v (interpreter of the source '
+                      'descriptions; werkzeug MultiDict / EnvironHeaders / request.json and os.environ as the world)',
                       'Model/ValidateSem.v (interpreter of the configuration; Python argument binding without *args)',
                       'Model/ValidateEval.v (value universe, convert_value table, harness validators)',
                       'harness/w_validate.py, harness/v_common.py (correspondence glue)',
